@@ -458,12 +458,17 @@ func TestC45(t *testing.T) {
 			// metamorphic twin: renaming the identifiers leaves the redacted string unchanged
 			if s == 0 {
 				if twin := renamedTwin(g.toks); twin != nil {
-					tsql := renderPlain(twin)
-					if _, terr := sqlparser.Parse(tsql); terr == nil {
+					// both sides are rendered without layout; the relation presupposes that both
+					// parse (the lexer fuses some adjacent keyword pairs, e.g. "not enforced" with a
+					// column named enforced parses only when a comment or newline separates them)
+					tsql, psql := renderPlain(twin), renderPlain(g.toks)
+					_, terr := sqlparser.Parse(tsql)
+					_, perr2 := sqlparser.Parse(psql)
+					if terr == nil && perr2 == nil {
 						tout, _, _ := sqlredact.RedactSQLForTrace(tsql)
-						pout, _, _ := sqlredact.RedactSQLForTrace(renderPlain(g.toks))
+						pout, _, _ := sqlredact.RedactSQLForTrace(psql)
 						if tout != pout {
-							rt.Fatalf("renaming the identifiers changes the redacted text:\n  %q -> %q\n  %q -> %q", renderPlain(g.toks), pout, tsql, tout)
+							rt.Fatalf("renaming the identifiers changes the redacted text:\n  %q -> %q\n  %q -> %q", psql, pout, tsql, tout)
 						}
 						st.Class("twin-compared")
 					}
